@@ -225,7 +225,8 @@ pub fn scientific_literal(input: ParseString) -> ParseResult<RealNumber> {
         (input, (exponent, Token::default()))
       }
       Err(err) => {return Err(err);}
-      _ => unreachable!(),
+      // a kind suffix on the exponent (`1.5e3u8`) is not a scientific literal
+      Ok(_) => {return Err(nom::Err::Error(ParseError::new(input, "Unexpected kind suffix on exponent")));}
     }
   };
   let ex_sign = match neg {
